@@ -340,6 +340,9 @@ func (bucket *Bucket) dropCollection(name sgbucket.DataStoreNameImpl) error {
 	bucket.mutex.Lock()
 	defer bucket.mutex.Unlock()
 
+	if bucket.closed {
+		return ErrBucketClosed // a refused call must not have stopped the collection's feeds
+	}
 	if c := bucket.collections[name]; c != nil {
 		c.close()
 		delete(bucket.collections, name)
